@@ -26,6 +26,8 @@ import (
 	"testing"
 	"time"
 
+	"github.com/golang/protobuf/proto" //nolint:staticcheck
+	"github.com/pingcap/kvproto/pkg/metapb"
 	"github.com/tikv/client-go/v2/config/retry"
 	"github.com/tikv/client-go/v2/internal/mockstore/mocktikv"
 	"github.com/tikv/client-go/v2/kv"
@@ -349,6 +351,139 @@ func (w *c09World) opTwin(rng *rand.Rand, ph c09Phase) {
 		w.r.Count("twin_lookups_fired", 1)
 	}
 	w.op(rand.New(rand.NewSource(seed)), ph, kind)
+}
+
+// opEpochNotMatch: the harness plays the store.  A key is located, the RPC
+// context of the located region is obtained as the sender would, and the
+// "store" answers EpochNotMatch with the regions one store would list: the
+// target's description and 0-2 of its neighbours, all taken from one topology
+// (the current one, or an older one = a store that lags), in any order.
+// OnRegionEpochNotMatch is called as the sender calls it.  Judged:
+//
+//	(a) retry=true ("the epoch in ctx is ahead of TiKV's", the documented
+//	    meaning of the flag) only if the listed description of the TARGET is
+//	    older than the epoch of the request;
+//	(b) otherwise, when the list is the current topology, the target's current
+//	    description is cached afterwards and the refuted entry no longer serves
+//	    requests; what gets installed is judged by the index walker;
+//	(c) convergence is judged by the sends that follow (checkConverged and the
+//	    "refuted epoch re-sent" rule of the RPC interposer).
+func (w *c09World) opEpochNotMatch(rng *rand.Rand, ph c09Phase) {
+	key := w.randKey(rng)
+	// prefer a key whose cached region is out of date (that is when a store answers EpochNotMatch)
+	for try := 0; try < 8; try++ {
+		k := w.randKey(rng)
+		if l := w.cache.TryLocateKey(k); l != nil {
+			if r := w.cur().byID(l.Region.GetID()); r != nil &&
+				(r.Meta.RegionEpoch.GetVersion() != l.Region.GetVer() || r.Meta.RegionEpoch.GetConfVer() != l.Region.GetConfVer()) {
+				key = k
+				break
+			}
+		}
+	}
+	bo := w.bo(c09LookupBudgetMs)
+	loc, err := w.cache.LocateKey(bo, key)
+	if err != nil {
+		w.lookupErr(ph, "LocateKey", err, false)
+		return
+	}
+	w.checkLoc("LocateKey", key, loc, false)
+	w.mu.Lock()
+	n := len(w.snaps)
+	sn := w.snaps[n-1]
+	fresh := true
+	if n > 1 && !ph.quiet && rng.Intn(4) == 0 {
+		sn = w.snaps[n-1-(1+rng.Intn(min(n-1, 4)))]
+		fresh = false
+	}
+	w.mu.Unlock()
+	ti := -1
+	for i, r := range sn.regs {
+		if r.Meta.Id == loc.Region.GetID() {
+			ti = i
+		}
+	}
+	if ti < 0 {
+		return // the store would say RegionNotFound
+	}
+	tep := sn.regs[ti].Meta.GetRegionEpoch()
+	tver := NewRegionVerID(loc.Region.GetID(), tep.GetConfVer(), tep.GetVersion())
+	if tver == loc.Region {
+		return // epochs match: the store would serve the request
+	}
+	rctx, err := w.cache.GetTiKVRPCContext(bo, loc.Region, kv.ReplicaReadLeader, 0)
+	if err != nil || rctx == nil {
+		return
+	}
+	idx := []int{ti}
+	switch rng.Intn(4) {
+	case 0:
+	case 1:
+		idx = append(idx, ti+1)
+	case 2:
+		idx = append(idx, ti-1, ti+1)
+	default:
+		idx = append(idx, ti+1, ti+2)
+	}
+	var metas []*metapb.Region
+	var ids []RegionVerID
+	lower, higher := false, false
+	told := ""
+	for _, i := range idx {
+		if i < 0 || i >= len(sn.regs) {
+			continue
+		}
+		m := proto.Clone(sn.regs[i].Meta).(*metapb.Region)
+		m.StartKey, m.EndKey = w.dec(m.StartKey), w.dec(m.EndKey) // the client decodes region errors before handling them
+		metas = append(metas, m)
+		v := NewRegionVerID(m.Id, m.RegionEpoch.GetConfVer(), m.RegionEpoch.GetVersion())
+		ids = append(ids, v)
+		if i != ti && v.GetVer() < loc.Region.GetVer() {
+			lower = true
+		}
+		if i != ti && v.GetVer() > loc.Region.GetVer() {
+			higher = true
+		}
+	}
+	rng.Shuffle(len(metas), func(i, j int) { metas[i], metas[j] = metas[j], metas[i]; ids[i], ids[j] = ids[j], ids[i] })
+	for _, v := range ids {
+		told += fmt.Sprintf("r%d@%d.%d ", v.GetID(), v.GetVer(), v.GetConfVer())
+	}
+	lag := tver.GetConfVer() < loc.Region.GetConfVer() || tver.GetVer() < loc.Region.GetVer()
+	w.logf("EPOCH-NOT-MATCH for key %s sent to %s: store lists %s(fresh=%v)", c09K(key), c09LocStr(loc), told, fresh)
+	w.observe("enm-deliver", ids)
+	retryFlag, err := w.cache.OnRegionEpochNotMatch(bo, rctx, metas)
+	w.observe("op-end", nil)
+	w.logf("  -> retry=%v err=%v", retryFlag, err)
+	w.r.Eval(1)
+	w.r.Count("enm_injected", 1)
+	if lower {
+		w.r.Count("enm_with_lower_version_neighbour", 1)
+	}
+	if higher {
+		w.r.Count("enm_with_higher_version_neighbour", 1)
+	}
+	if lag {
+		w.r.Count("enm_from_lagging_store", 1)
+	}
+	detail := map[string]any{"key": c09K(key), "request_epoch": c09LocStr(loc), "listed": told}
+	if retryFlag && !lag {
+		w.violate("enm:retry-although-store-is-not-behind", fmt.Sprintf("OnRegionEpochNotMatch(request to %s, store lists %s) returned retry=true: the same stale request is to be sent again, although the store's description of region %d is not older than the request's",
+			c09LocStr(loc), told, loc.Region.GetID()), detail)
+		return
+	}
+	if err != nil || retryFlag || !fresh || w.concurrent.Load() {
+		return // under concurrency the topology and the cache move between the steps of this check
+	}
+	// (b) the list was the current topology: nothing cached can be newer than it
+	if w.cache.GetCachedRegionWithRLock(tver) == nil {
+		w.violate("enm:current-description-not-installed", fmt.Sprintf("after OnRegionEpochNotMatch(request to %s, store lists %s) the current description r%d@%d.%d of the target is not cached",
+			c09LocStr(loc), told, tver.GetID(), tver.GetVer(), tver.GetConfVer()), detail)
+	}
+	if c2, _ := w.cache.GetTiKVRPCContext(w.bo(c09LookupBudgetMs), loc.Region, kv.ReplicaReadLeader, 0); c2 != nil {
+		w.violate("enm:refuted-entry-still-serves", fmt.Sprintf("after OnRegionEpochNotMatch(request to %s, store lists %s) the refuted entry still yields an RPC context", c09LocStr(loc), told), detail)
+	}
+	w.r.Count("enm_installed_checked", 1)
 }
 
 func (w *c09World) opInvalidate(rng *rand.Rand) {
@@ -751,10 +886,12 @@ func c09Dynamic(r *vrep.Report, stream string, idx int, mvcc mocktikv.MVCCStore,
 			w.op(rng, chaos, c09Weighted(rng, weights))
 		case x < 84:
 			w.opSend(rng, chaos)
-		case x < 92:
+		case x < 90:
 			w.opCtxEnd(rng, chaos)
-		case x < 95:
+		case x < 93:
 			w.opTwin(rng, chaos)
+		case x < 97:
+			w.opEpochNotMatch(rng, chaos)
 		default:
 			w.opInvalidate(rng)
 		}
@@ -787,8 +924,10 @@ func c09Dynamic(r *vrep.Report, stream string, idx int, mvcc mocktikv.MVCCStore,
 						w.op(wrng, chaos, c09Weighted(wrng, weights))
 					case x < 85:
 						w.opSend(wrng, chaos)
-					case x < 95:
+					case x < 93:
 						w.opCtxEnd(wrng, chaos)
+					case x < 96:
+						w.opEpochNotMatch(wrng, chaos)
 					default:
 						w.opInvalidate(wrng)
 					}
@@ -801,6 +940,9 @@ func c09Dynamic(r *vrep.Report, stream string, idx int, mvcc mocktikv.MVCCStore,
 		w.logf("CONCURRENT PHASE OVER")
 	}
 	w.settle()
+	for i := 0; i < 3; i++ {
+		w.opEpochNotMatch(rng, c09Phase{quiet: true})
+	}
 	if big {
 		var ks [][]byte
 		for i := 0; i < 60; i++ {
@@ -882,13 +1024,17 @@ func TestVerifC09Dynamic(t *testing.T) {
 	r.Floor("ctx_ended_after_pd_answer", vrep.Pick(500, 8000))
 	r.Floor("ctx_ended_before_pd_request", vrep.Pick(500, 8000))
 	r.Floor("twin_lookups_fired", vrep.Pick(220, 3500))
+	r.Floor("enm_injected", vrep.Pick(700, 11000))
+	r.Floor("enm_with_lower_version_neighbour", vrep.Pick(130, 2000))
+	r.Floor("enm_with_higher_version_neighbour", vrep.Pick(250, 4000))
+	r.Floor("enm_installed_checked", vrep.Pick(600, 9500))
 	r.Floor("lookups_checked", vrep.Pick(30000, 500000))
 	r.Floor("topology_changes", vrep.Pick(6000, 100000))
 	r.Floor("pd_stale_answers", vrep.Pick(600, 10000))
-	r.Floor("rpc_epoch_not_match", vrep.Pick(800, 14000))
+	r.Floor("rpc_epoch_not_match", vrep.Pick(480, 8000))
 	r.Floor("rpc_not_leader", vrep.Pick(500, 8000))
 	r.Floor("converged_requests", vrep.Pick(20000, 350000))
-	r.Floor("converged_after_retries", vrep.Pick(800, 14000))
+	r.Floor("converged_after_retries", vrep.Pick(420, 7000))
 }
 
 func TestVerifC09Concurrent(t *testing.T) {
